@@ -838,13 +838,20 @@ def _text_sources(e: ast.AST | None, fn: ast.AST, depth: int = 4, _seen: "set[st
     return set()
 
 
-def _writes_label(fn: ast.AST, helpers: dict[str, Any], n: object, who: str, need: list[set[str]], attrs: tuple[str, ...] = ("header",)) -> bool:
+def _writes_label(fn: ast.AST, helpers: dict[str, Any], n: object, who: str, need: list[set[str]], attrs: tuple[str, ...] = ("header",),
+                  via: "set[str] | None" = None) -> bool:
     """statement n of fn writes into a text attribute of the error held by local `who` a string computed from (a name of each set
-    of) `need`: in place, or by calling a private helper that is handed the error and writes, into the text of the parameter that
-    receives it, a string computed from parameters that receive such names"""
+    of) `need`: in place (`who.header = ..`, or `rec.<field>.header = ..` through a record `rec` of `via` that was built from the
+    error), or by calling a private helper that is handed the error and writes, into the text of the parameter that receives it, a
+    string computed from parameters that receive such names"""
+    def holder(t: ast.AST) -> bool:
+        if isinstance(t, ast.Name):
+            return t.id == who
+        return bool(via) and isinstance(t, ast.Attribute) and isinstance(t.value, ast.Name) and t.value.id in (via or set())
+
     if isinstance(n, (ast.Assign, ast.AugAssign)):
         tgts = n.targets if isinstance(n, ast.Assign) else [n.target]
-        if any(isinstance(t, ast.Attribute) and t.attr in attrs and isinstance(t.value, ast.Name) and t.value.id == who for t in tgts):
+        if any(isinstance(t, ast.Attribute) and t.attr in attrs and holder(t.value) for t in tgts):
             behind = _text_sources(n.value, fn)
             if all(behind & grp for grp in need):
                 return True
@@ -882,17 +889,34 @@ def _same_object(fn: ast.AST, name: str) -> set[str]:
 
 def _unlabelled_errors(ix: Any, f: Any, need: list[set[str]], cfgs: dict[str, CFG], returned: bool) -> tuple[list[str], int]:
     """(errors that leave f without a header computed from `need`, number of errors that leave f).  An error leaves f by being
-    returned (`returned`) or by being recorded in a list (alone or in a tuple).  Held by a local, it must have been labelled
-    (_writes_label) on every path to that point - or by the very statement, when a helper labels it and hands it back; built in
-    place, its header / detail arguments must be computed from `need`."""
+    returned (`returned`) or by being recorded in a list (alone, in a tuple, or as a field of a record built from it: a local bound
+    to a constructor call / display that is handed the error).  Held by a local, it must have been labelled (_writes_label) on every
+    path to that point - or by the very statement, when a helper labels it and hands it back; built in place, its header / detail
+    arguments must be computed from `need`."""
     cfg = cfg_of(f, cfgs)
     errs = {x for e in error_names(f.node) for x in _same_object(f.node, e)}
     helpers = {g.name: g for g in region(ix, f, depth=1) if g is not f}
     bad: list[str] = []
     n = 0
+    # records that carry an error: local -> the errors it was built from
+    carried: dict[str, set[str]] = {}
+    for name, ds in Locals(f.node).defs.items():
+        if name in errs:
+            continue
+        for kind, _, v in ds:
+            parts = [*v.args, *[k.value for k in v.keywords]] if isinstance(v, ast.Call) and not constructs_error(v) else \
+                list(v.elts) if isinstance(v, (ast.Tuple, ast.List)) else []
+            if kind == "assign":
+                carried.setdefault(name, set()).update(a.id for a in parts if isinstance(a, ast.Name) and a.id in errs)
+    carried = {k: v for k, v in carried.items() if v}
+    for k in list(carried):
+        for alias in _same_object(f.node, k):
+            carried.setdefault(alias, set()).update(carried[k])
 
     def labels(x: object, who: str) -> bool:
-        return any(_writes_label(f.node, helpers, x, w, need) for w in _same_object(f.node, who))
+        same = _same_object(f.node, who)
+        via = {r for r, es in carried.items() if es & same}
+        return any(_writes_label(f.node, helpers, x, w, need, via=via) for w in same)
 
     for st in cfg.stmts():
         leaving: list[ast.AST] = []
@@ -910,6 +934,8 @@ def _unlabelled_errors(ix: Any, f: Any, need: list[set[str]], cfgs: dict[str, CF
                     for v in ([a0] + (list(a0.elts) if isinstance(a0, (ast.Tuple, ast.List)) else [])):
                         if (isinstance(v, ast.Name) and v.id in errs) or (isinstance(v, ast.Call) and constructs_error(v)):
                             leaving.append(v)
+                        elif isinstance(v, ast.Name) and v.id in carried:
+                            leaving += [ast.copy_location(ast.Name(id=e_, ctx=ast.Load()), v) for e_ in sorted(carried[v.id])]
         for v in leaving:
             n += 1
             if isinstance(v, ast.Name):
@@ -1723,7 +1749,7 @@ class _Iteration:
             return s
         return s.but(err=s.err - names, ok=s.ok - names, none=s.none - names, errl=s.errl - names)
 
-    def _is_error_value(self, e: ast.AST, s: _S) -> bool:
+    def _is_error_value(self, e: ast.AST, s: _S, _depth: int = 2) -> bool:
         if constructs_error(e):
             return True
         if isinstance(e, ast.Call) and isinstance(e.func, ast.Name) and e.func.id in self.err_classes:
@@ -1736,9 +1762,16 @@ class _Iteration:
                 return True
         if isinstance(e, ast.Name):
             # known to hold an error on this path, or somewhere in the function and not known otherwise here
-            return e.id in s.err or (e.id in self.errs and e.id not in s.ok)
+            if e.id in s.err or (e.id in self.errs and e.id not in s.ok):
+                return True
+            # a record built from such an error (a tuple, the result of a constructor that is handed it): recording it records the error
+            ds = [d for d in self.lc.defs.get(e.id, []) if not isinstance(d[1], ast.comprehension)]  # a comprehension's variable is its own
+            return _depth > 0 and bool(ds) and all(
+                k == "assign" and isinstance(v, (ast.Call, ast.Tuple)) and any(
+                    isinstance(x, ast.Name) and x.id != e.id and self._is_error_value(x, s, _depth - 1)
+                    for x in (v.elts if isinstance(v, ast.Tuple) else [*v.args, *[kw.value for kw in v.keywords]])) for k, _, v in ds)
         if isinstance(e, ast.Tuple):
-            return any(isinstance(x, ast.Name) and self._is_error_value(x, s) for x in e.elts)
+            return any(isinstance(x, ast.Name) and self._is_error_value(x, s, _depth) for x in e.elts)
         return False
 
     def _outlives(self, recv: ast.AST) -> bool:
